@@ -212,7 +212,7 @@ PROPS = {
     },
     "C01": {
         "module": 'MF.Props.C01Tables',
-        "module_extra": ['MF.Props.C01Expr', 'MF.Props.C01Types'],
+        "module_extra": ['MF.Props.C01Expr', 'MF.Props.C01Types', 'MF.Props.C01Query'],  # C01Query = Task X
         "theorems": ['MF.Props.C01.gen_unread',
             'MF.Props.C01.gen_unread_matches_extractor',
             'MF.Props.C01.gen_prec_eq_spec',
@@ -237,8 +237,11 @@ PROPS = {
             'MF.Props.C01.parsed_namesOK',
             'MF.Props.C01.type_roundtrip_partial',
             'MF.Props.C01.ex2_parse',
-            'MF.Props.C01.ex2_rt'],
-        "channels": ['TREE', 'EXPR', 'TYPE'],
+            'MF.Props.C01.ex2_rt',
+            'MF.Props.C01.query_print_derivable',
+            'MF.Props.C01.query_roundtrip_tokens_partial',
+            'MF.Props.C01.query_print_fixed_point'],
+        "channels": ['TREE', 'EXPR', 'TYPE', 'QUERY'],
         "pred": True,
         "level": 'proof',
         "trusted_base": ['hand-written model MF/Model/{Basic,Char,Utf8,Token,Lexer,File}.lean of lexer.go, char/*.go, token/{token,keywords,file}.go',
@@ -265,7 +268,7 @@ PROPS = {
     },
     "C02": {
         "module": 'MF.Props.C01Tables',
-        "module_extra": ['MF.Props.C01Expr', 'MF.Props.C01Types'],
+        "module_extra": ['MF.Props.C01Expr', 'MF.Props.C01Types', 'MF.Props.C01Query'],  # C01Query = Task X
         "theorems": ['MF.Props.C01.gen_unread',
             'MF.Props.C01.gen_unread_matches_extractor',
             'MF.Props.C01.gen_prec_eq_spec',
@@ -279,8 +282,11 @@ PROPS = {
             'MF.Props.C01.type_lossless',
             'MF.Props.C01.type_lossless_tokens',
             'MF.Props.C01.print_lexes',
-            'MF.Props.C01.type_lossless_partial'],
-        "channels": ['TREE', 'EXPR', 'TYPE'],
+            'MF.Props.C01.type_lossless_partial',
+            'MF.Props.C01.query_print_lossless',
+            'MF.Props.C01.select_trailing_only',
+            'MF.Props.C01.query_print_derivable'],
+        "channels": ['TREE', 'EXPR', 'TYPE', 'QUERY'],
         "pred": True,
         "level": 'proof',
         "trusted_base": ['hand-written model MF/Model/{Basic,Char,Utf8,Token,Lexer,File}.lean of lexer.go, char/*.go, token/{token,keywords,file}.go',
@@ -323,8 +329,9 @@ PROPS = {
             'MF.Props.C05.reads_guarded',
             'MF.Props.C05.offset_meaning',
             'MF.Props.C05.chains_static',
-            'MF.Props.C05.chains_complete'],
-        "channels": ['TREE', 'TYPE', 'EXPRPOS'],
+            'MF.Props.C05.chains_complete',
+            'MF.Props.C05.query_pos_first_token'],
+        "channels": ['TREE', 'TYPE', 'EXPRPOS', 'QUERY'],
         "pred": True,
         "level": 'proof',
         "trusted_base": ['expression fragment: hand-written model MF/Model/ExprPos.lean of parser.go parseExpr..parseLit WITH the position fields of the Go nodes and of the generated Pos()/End() of '
@@ -350,7 +357,7 @@ PROPS = {
             'they make one-site slips (a wrong addend, a position read after nextToken(), an end chain that forgets or misorders a clause) deterministic failures that name the row; exceptions are '
             'explicit tables in MF/Props/C05Offsets.lean and C05Chains.lean (assumed sites, known findings, exempt kinds) that fail the check when they go stale',
             'every other entry point and node kind: exploration of the real entry points over corpus, probes, the reference grammar G, grafts, edits, mutations and soups (partial)'],
-        "module_extra": ['MF.Props.C05Expr', 'MF.Props.C05Offsets', 'MF.Props.C05Chains'],
+        "module_extra": ['MF.Props.C05Expr', 'MF.Props.C05Offsets', 'MF.Props.C05Chains', 'MF.Props.C05Query'],
     },
     "C06": {
         "module": 'MF.Props.C06Types',
@@ -424,7 +431,12 @@ PROPS = {
             'MF.Props.C08.accepted_starts_select',
             'MF.Props.C08.expr_slot_complete',
             'MF.Props.C08.where_complete',
-            'MF.Props.C08.having_complete'],
+            'MF.Props.C08.having_complete',
+            'MF.Props.C08.query_complete_partial',
+            'MF.Props.C08.query_complete_statement_partial',
+            'MF.Props.C08.queryD0_sub',
+            'MF.Props.C08.complete_needs_castfree',
+            'MF.Props.C08.trailing_comma_placement'],
         "channels": ['TREE', 'TYPE', 'EXPR', 'QUERY'],
         "channel_accepts": {"TYPE": "MF.Props.C08.type_sound_top: an accepted token list is a derivation of the documented type grammar G_T",
                             "QUERY": "MF.Props.C08.query_sound_top: an accepted token list is a derivation of the documented grammar G_Q of the SELECT core",
